@@ -133,7 +133,7 @@ def ruleOutJson (res : RuleOut) : Json :=
     ("flag", Json.bool res.flag),
     ("val", valJson res.val),
     ("env", Json.arr (res.env.base.map objJson).toArray),
-    ("trace", traceJson res.env.trace)]
+    ("trace", traceJson res.env.trace.reverse)]
 
 /-- One evaluator case: model on the dumped AST, reference semantics on the generator's tree,
     and whether the dumped AST has the shape `lower` predicts (positions = lines included). -/
